@@ -40,6 +40,7 @@ from .c01 import alternatives, py_of, random_arg, request_classes, service_modul
 
 # primary echo = fields whose mismatch makes a reply *foreign* (statement: "echoed primary
 # identifier"); the full echo list decides *genuine*
+TIER = "quick"
 PRIMARY = {0x10: 1, 0x11: 1, 0x27: 1, 0x28: 1, 0x85: 1, 0x22: 1, 0x23: 1, 0x2C: 1, 0x2E: 1,
            0x3D: 3, 0x19: 1, 0x2F: 1, 0x31: 2, 0x36: 1}
 
@@ -97,6 +98,9 @@ def make_harness(cname: str, cls: type, alts: dict[str, str], family: str):
             I.assume(b0 == 0x7F)
         elif family == "own":
             I.assume(b0 == sid + 0x40)
+            if sid == 0x19:
+                # dict-backed DTC lists: bounded to <= 2 records (labelled on the unit)
+                I.assume(models.seq_len(p.t) <= (7 if TIER == "quick" else 11))
         else:
             I.assume(z3.And(b0 != 0x7F, b0 != sid + 0x40))
         I.ghost["D"] = None
@@ -279,6 +283,8 @@ def registry_harness(I: Interp) -> None:
 
 
 def build_units(tier: str) -> list[Unit]:
+    global TIER
+    TIER = tier
     units: list[Unit] = [Unit("registry/UnexpectedNegativeResponse", registry_harness)]
     for cname, cls in request_classes().items():
         if cname in iso.INTERNAL_REQUEST_BASES or cname not in iso.REQUESTS:
@@ -304,7 +310,10 @@ def build_units(tier: str) -> list[Unit]:
             tag = ",".join(f"{k}={v}" for k, v in alts.items())
             for fam in ("negative", "own", "other"):
                 units.append(Unit(f"{cname}/{tag}/{fam}", make_harness(cname, cls, alts, fam),
-                                  setup=install_other if fam == "other" else install))
+                                  setup=install_other if fam == "other" else install,
+                                  bounded="replies 0x59 with <= 1 (quick) / 2 (thorough) DTC records"
+                                  if fam == "own" and iso.REQUESTS[cname]["sid"] == 0x19
+                                  else ""))
     from .c02 import response_classes
     for rname, rcls in response_classes().items():
         if rcls.SERVICE_ID is None or rname in iso.INTERNAL_RESPONSE_BASES \
@@ -335,6 +344,7 @@ def raw_harness(family: str):
         b0 = p.t[0]
         I.assume(z3.And(b0 >= 0, b0 <= 255))
         I.assume(b0 == 0x7F if family == "negative" else b0 != 0x7F)
+        I.assume(z3.Implies(b0 == 0x59, models.seq_len(p.t) <= (7 if TIER == "quick" else 11)))
         I.ghost["D"] = None
         ln = models.seq_len(p.t)
         try:
